@@ -62,7 +62,7 @@ def _bucket(t):
         if d == 0 and eds[0]["a"] == "InsertRun" and eds[1]["a"] == "InsertRun":
             key += (eds[0]["run"], eds[1]["run"])
         if d == 0 and "v" in eds[0] and "v" in eds[1]:
-            key += ("v-equal" if eds[0]["v"] == eds[1]["v"] else "v-differ",)
+            key += (eds[0]["v"], eds[1]["v"]) if eds[0]["a"] == eds[1]["a"] else ("v",)
     return key
 
 
@@ -97,22 +97,27 @@ class Corpus(object):
         abstract = [t for t in enumerate_edits(1, 1, bases, self.chk) if want(t)]
         self.chk.notes.setdefault("corpus", {})["tlc_enumerated_triples"] = len(abstract)
         if n_enum is not None and n_enum < len(abstract):
-            # keep the sample stratified by kind of edit pair
+            # stratified seeded sample: strata = kinds of the two edits, relative position, parameters;
+            # 70% of the budget goes to strata where both sides touch the same position (conflict-rich)
             r.shuffle(abstract)
-            buckets = {}
+            groups = ({}, {})
             for t in abstract:
                 k = _bucket(t)
-                buckets.setdefault(k, []).append(t)
+                groups[0 if "same" in k else 1].setdefault(k, []).append(t)
             picked = []
-            keys = sorted(buckets)
-            while len(picked) < n_enum and keys:
-                for k in list(keys):
-                    if buckets[k]:
-                        picked.append(buckets[k].pop())
-                        if len(picked) >= n_enum:
-                            break
-                    else:
-                        keys.remove(k)
+            for buckets, budget in ((groups[0], int(n_enum * 0.7)), (groups[1], n_enum - int(n_enum * 0.7))):
+                keys = sorted(buckets, key=repr)
+                r.shuffle(keys)
+                got = 0
+                while got < budget and keys:
+                    for k in list(keys):
+                        if buckets[k]:
+                            picked.append(buckets[k].pop())
+                            got += 1
+                            if got >= budget:
+                                break
+                        else:
+                            keys.remove(k)
             abstract = picked
         out = []
         for k, t in enumerate(abstract):
